@@ -399,8 +399,7 @@ func (g *c20Gen) custom(rv reflect.Value, depth int) bool {
 	case c20PkgIDT:
 		rv.Set(reflect.ValueOf(gnolang.PkgID{Hashlet: g.hashlet()}))
 	case c20ObjectIDT:
-		// NewTime is parsed back with strconv.Atoi, so stay below 2^63.
-		rv.Set(reflect.ValueOf(gnolang.ObjectID{PkgID: gnolang.PkgID{Hashlet: g.hashlet()}, NewTime: g.u64() & math.MaxInt64}))
+		rv.Set(reflect.ValueOf(gnolang.ObjectID{PkgID: gnolang.PkgID{Hashlet: g.hashlet()}, NewTime: g.u64()}))
 	case c20BigintT:
 		v := new(big.Int).SetInt64(g.i64())
 		if g.n(3) == 0 {
